@@ -44,6 +44,9 @@ def tie_skeleton(ctx, broken, specs_faults, name, need_det_ok=True, extra_valid=
         if P["opts"]["det"] and not P["crashed"] and not P["target_fault"]:
             # the two historic-improvement oracles are the rounded difference between the history row the code reads and the incumbent
             detok = f"({detok} && hist_ok {inputs})"
+        if not P["crashed"] and not P["target_fault"]:
+            # in every noise mode: the code evaluates the stall test / the acceleration test exactly in the iterations the model says
+            detok = f"({detok} && window_ok {inputs})"
         if callable(extra_valid):
             ex = extra_valid(tr, P)
             if ex:
